@@ -179,6 +179,49 @@ func c09Check(cases []c09Case, arms []int, forms []int, dflt bool, ctx int) {
 	}
 }
 
+// the match target is a lambda parameter WITHOUT annotation, whose union type is only found later by
+// inference.  fc today rejects every such match when it parses it (it cannot tell the kind of match),
+// which the property does not speak about; what the property does demand in every context is checked
+// one-sidedly: a match without default that omits a case is never accepted.
+func c09CheckUntyped(cases []c09Case, arms []int, forms []int, dflt bool) {
+	var sb strings.Builder
+	sb.WriteString("package main\n\npackage_info _ =\n  let MapU<T, R>: (T->R)->[]T->[]R\n\ntype U =\n")
+	for _, c := range cases {
+		if c.payload == "" {
+			sb.WriteString("  | " + c.name + "\n")
+		} else {
+			sb.WriteString("  | " + c.name + " of " + c.payload + "\n")
+		}
+	}
+	sb.WriteString("\nlet f (us: []U) =\n  MapU (fun x ->\n    match x with\n")
+	covered := map[int]bool{}
+	for i, a := range arms {
+		c := cases[a]
+		covered[a] = true
+		pat := c.name
+		if c.payload != "" {
+			if forms[i]%3 == 0 {
+				pat += " x" + strconv.Itoa(i)
+			} else {
+				pat += " _"
+			}
+		}
+		sb.WriteString("    | " + pat + " -> " + strconv.Itoa(i+1) + "\n")
+	}
+	if dflt {
+		sb.WriteString("    | _ -> 0\n")
+	}
+	src := strings.TrimSuffix(sb.String(), "\n") + ") us\n"
+	_, err := vTranspile(src)
+	vstat("c09.untyped-target")
+	if err == "" {
+		vstat("c09.untyped-target.accepted")
+	}
+	if !dflt && len(covered) < len(cases) && err == "" {
+		vViolation(map[string]any{"kind": "a match without default that omits a case is accepted (target: a lambda parameter whose union type is inferred later)", "source": src, "accepted": true})
+	}
+}
+
 // every non-empty sequence without repetition of indices 0..n-1
 func c09Sequences(n int, f func([]int)) {
 	var rec func(cur []int, used int)
@@ -246,6 +289,9 @@ func vC09(seed int64, count int, extra []string) {
 					}
 					if mix >= 2 || n <= 3 {
 						c09Check(cases, arms, forms, dflt, 1+r.Intn(6))
+					}
+					if r.Intn(4) == 0 {
+						c09CheckUntyped(cases, arms, forms, dflt)
 					}
 				}
 			})
